@@ -30,7 +30,8 @@ def oracle_c03(h, k, d):
 
 
 def run(ctx):
-    hs, impl = c04.run_history_check(ctx, PID, oracle_c03, "determinism across interfaces / parallelism / passes is checked on the implementation (coverage.determinism_runs)")
+    hs, impl = c04.run_history_check(ctx, PID, oracle_c03, "determinism across interfaces / parallelism / passes is checked on the implementation (coverage.determinism_runs)",
+                                       extra_gens=("GenIter", "GenPipeline"))
     # determinism: every interface x degree of parallelism x repeated passes on one handle x fresh handles,
     # all equal to the depth-first write-order sequence decoded shard by shard
     from harness import iterlib
